@@ -9,6 +9,9 @@ use serde_json::json;
 use std::sync::Arc;
 use uflow::SendMode;
 
+/// For properties that run scenarios of both worlds: endpoint-world witnesses are reported from bit 32 on.
+fn mixed(mut s: Summary) -> Summary { s.witness_names = crate::eprops::mixed_witness_names(); s }
+
 fn lw_summary(rule: &str, bounds: serde_json::Value, assumptions: &[&str]) -> Summary {
     Summary {
         rule: rule.to_string(), bounds, assumptions: assumptions.iter().map(|s| s.to_string()).collect(),
@@ -146,10 +149,10 @@ fn c02(quick: bool) -> PropRun {
     }
     }
     scs.extend(crate::props_ew::survive_scenarios(quick, false));
-    PropRun { level: "model_checking", scenarios: scs, units: vec![], replay_case: None, summary: lw_summary(
+    PropRun { level: "model_checking", scenarios: scs, units: vec![], replay_case: None, summary: mixed(lw_summary(
         "fault prefix (deviations in the first dev_rounds rounds) followed by a fair network; safety on every round, bounded liveness at the horizon T_live = 300 s of virtual time (fixed a priori from protocol constants, never calibrated on the implementation); plus the user-visible form on real Client/Server objects with default time-outs: single-frame faults and pauses of at most 2 s must never end in an Error event, and all Reliable packets arrive within 45 s",
         json!({"d": d, "dev_rounds": dev, "T_live_ms": 300_000, "fair_cadence_ms": 20, "blackouts": "one or both directions, 3..3000 rounds, at every round of the prefix"}),
-        &[A_LW[0], A_LW[1], A_LW[3], "bounded liveness: a change that slows recovery but stays inside T_live is not detected; a permanent stall is"]) }
+        &[A_LW[0], A_LW[1], A_LW[3], "bounded liveness: a change that slows recovery but stays inside T_live is not detected; a permanent stall is"])) }
 }
 
 // ------------------------------------------------------------------------------------------------
@@ -282,10 +285,16 @@ fn c20(quick: bool) -> PropRun {
         let small = scripts_upto(3, &[0], &MODES, &[0, 40, 2000], &[0, 1]);
         for s in small.iter() { scs.push(spec("C20.all", &grid[0], s, env_live(5), 2, oracles)); }
     }
-    PropRun { level: "model_checking", scenarios: scs, units: vec![], replay_case: None, summary: lw_summary(
-        "send_buffer_size() compared on every round with bounds [L,U] derived from the API calls and the wire (L = U unless a TimeSensitive packet that never reaches the wire may already have been discarded); zero and nothing pending at the horizon",
+    // the same quantity at the API of Client and RemoteClient (endpoint world): echo / transfer scenarios of C08 and C09 and bulk-ish survive scripts
+    for mut sp in crate::props_ew::c08_specs(quick).into_iter().chain(crate::props_ew::c09_specs(quick).into_iter()) {
+        if sp.tag.contains("blackout") || sp.tag.contains("full-server") { continue; }
+        sp.oracles = crate::eprops::EO_C20; sp.tag = format!("C20.api.{}", sp.tag); sp.env.stop_when_done = false; sp.env.max_rounds = sp.env.max_rounds.max(sp.env.dev_start + sp.env.dev_rounds + 110);
+        scs.push(crate::eprops::ew_scenario(sp));
+    }
+    PropRun { level: "model_checking", scenarios: scs, units: vec![], replay_case: None, summary: mixed(lw_summary(
+        "send_buffer_size() compared on every round with bounds [L,U] derived from the API calls and the wire (L = U unless a TimeSensitive packet that never reaches the wire may already have been discarded); zero and nothing pending at the horizon; at the API of Client and RemoteClient: 0 unless established, never above the bytes handed to send(), 0 again once a still established connection has been quiet for 60 rounds",
         json!({"d": d}),
-        A_LW) }
+        A_LW)) }
 }
 
 // ------------------------------------------------------------------------------------------------
@@ -321,10 +330,10 @@ fn c11(quick: bool) -> PropRun {
     scs.extend(crate::props_ew::survive_scenarios(quick, true));
     // the shared pool (single losses, duplicates, delays, pauses on small windows and allocations): nothing may stay stalled at T_live
     scs.extend(from_pool(quick, "C11", O_C11POOL));
-    PropRun { level: "model_checking", scenarios: scs, units: vec![], replay_case: None, summary: lw_summary(
+    PropRun { level: "model_checking", scenarios: scs, units: vec![], replay_case: None, summary: mixed(lw_summary(
         "fault phase (one or two deviations: a blackout of 5/100/500/3000 rounds in one or both directions starting at any round of the window, a lasting change of latency x10/x25 or of the step cadence x10/x50, single losses, pauses of 2 and 10 s) followed by a fair network; probe packets of every mode (50 B to 2 kB, both directions) submitted after the longest fault must all be delivered, earlier Reliable packets too, within T_live = 300 s of steps (fixed a priori); data still pending at the horizon must at least have made progress since the probes were submitted",
         json!({"d": if quick { 1 } else { 2 }, "blackout_rounds": [5, 100, 500, 3000], "directions": ["a->b", "b->a", "both"], "shifts": ["latency 1->10 rounds", "latency 1->25 rounds", "cadence ->200 ms", "cadence ->1000 ms"], "fills": ["packet window 4 filled 3x", "frame window 4 filled", "receive allocation of 3 fragments exhausted", "default 4096 windows, both directions", "idle"], "probe_round": probe_round, "T_live_rounds": T_LIVE_ROUNDS}),
-        &[A_LW[0], A_LW[1], A_LW[3], "bounded liveness: recovery slower than T_live after the probes is reported, recovery inside it is not distinguished from immediate recovery"]) }
+        &[A_LW[0], A_LW[1], A_LW[3], "bounded liveness: recovery slower than T_live after the probes is reported, recovery inside it is not distinguished from immediate recovery"])) }
 }
 
 fn leak(v: &[u64]) -> &'static [u64] { Box::leak(v.to_vec().into_boxed_slice()) }
